@@ -1,16 +1,32 @@
 //! C09 executor.  One case per line:
 //!   Q                                   -> "B <Writer::VERIF_BUF_SIZE>"
 //!   S <maxchunk> <intr_permille> <seed> <rt> <op>*
+//!   D <maxchunk> <intr_permille> <seed> <rt> <which> <dropfirst> (<0|1> <op>)*
+//!        two writers over two sinks alive at the same time, operations interleaved as listed; the answer
+//!        describes writer <which>; the other writer's sink must equal ITS to_string rendering, otherwise
+//!        the verdict is F!other
+//!   M <rt> <op>*    the script runs in a child process (this binary, `--makeio <op>*`) through the real
+//!        `make_io!` (stdin/stdout locks) and ends by returning from the function; the parent reports what
+//!        arrived on the child's stdout (no `f` lengths: the child cannot see its pipe)
 //! op  := w <val> | c <codepoint> | f | o <n> <val>*n | ol <n> <val>*n
+//!      | mv  (the writer is moved: boxed, passed through a function, moved back; no output)
 //! val := <ity> <num> | s <hex|-> (String) | r <hex|-> (&str) | fill <byte> <k> (String of k copies)
+//!      | rfill <byte> <k> (the same as &str) | runs <n> (<byte> <k>)*n / rruns .. (ONE String / &str made of n runs)
+//!      | fillu <codepoint> <k> <byte> <j> / rfillu .. (String / &str: j copies of an ASCII byte, then k copies of a char)
 //!      | v <n> <val>*n (Vec<Val>) | t <n> <val>*n (tuple, arity 2..8) | nv <ity> <n> <num>*n (Vec<ity>)
+//!      | nvrep <ity> <num> <k> (Vec<ity> of k copies)
+//! rt  := 0 no read back | 1 element by element (read::<int>, read::<String> for whitespace-free ASCII strings)
+//!      | 3 structured (read_vec for Vec<int>, the tuple impl for tuples of one integer type) | 2 read_lines
+//! In a debug build every public write has to leave the buffer empty: after each operation the executor calls
+//! flush() itself and the sink must not grow (otherwise the verdict is F!dbgflush<op index>).
 //! The sink accepts 1..maxchunk bytes per `write` call and answers Interrupted with the given
 //! probability (write_all of std has to cope).  Output:
 //!   R <sink hex|-> <nflush> <sink length after each explicit flush>* <T|F hex: sink == concat of to_string()> <N|T|F: read back>
 //! or P when the writer panicked.
-//!   X <ity> <all|rand> <seed> <count> <maxchunk> <intr_permille>   (implementation-level search)
+//!   X <ity> <all|rand|vec> <seed> <count> <maxchunk> <intr_permille>   (implementation-level search)
 //!       -> "X ok <values> <bytes>" | "X bad <what>": many values of one type through one writer,
-//!          compared with to_string and read back through Reader
+//!          compared with to_string and read back through Reader; `vec`: the values as ONE Vec<ity>, as
+//!          Vec<Vec<ity>> and as Vec<(ity, ity)>, read back with read_vec
 // make_output_macro_! calls itself by its bare name, so it has to be in scope at the call site
 use rlib_io::make_output_macro_;
 use rlib_io::reader::Reader;
@@ -160,19 +176,25 @@ impl Val {
         }
     }
 
-    /// the integers inside, with their types, in writing order (None if a string occurs)
-    fn ints(&self, out: &mut std::vec::Vec<(&'static str, String)>) -> bool {
+    /// what a reader has to find, in writing order (false: not readable in this mode).
+    /// structured = false: one `read::<T>()` per integer, `read::<String>()` per string token;
+    /// structured = true: additionally `read_vec::<T>(n)` for Vec<int>, the tuple impl for tuples of one integer type
+    fn reads(&self, structured: bool, out: &mut std::vec::Vec<Rd>) -> bool {
         use Val::*;
         macro_rules! one {
             ($n:expr, $x:expr) => {{
-                out.push(($n, $x.to_string()));
+                out.push(Rd::Int($n, $x.to_string()));
                 true
             }};
         }
         macro_rules! many {
             ($n:expr, $v:expr) => {{
-                for x in $v.iter() {
-                    out.push(($n, x.to_string()));
+                if structured {
+                    out.push(Rd::VecOf($n, $v.iter().map(|x| x.to_string()).collect()));
+                } else {
+                    for x in $v.iter() {
+                        out.push(Rd::Int($n, x.to_string()));
+                    }
                 }
                 true
             }};
@@ -190,8 +212,31 @@ impl Val {
             U64(x) => one!("u64", x),
             U128(x) => one!("u128", x),
             Usize(x) => one!("usize", x),
-            Str(_) | StrRef(_) => false,
-            Vec(v) | Tup(v) => v.iter().all(|x| x.ints(out)),
+            Str(s) | StrRef(s) => {
+                // a token for `read::<String>()`: not empty, printable ASCII without blanks
+                if !s.is_empty() && s.bytes().all(|b| (33..127).contains(&b)) {
+                    out.push(Rd::Str(s.clone()));
+                    true
+                } else {
+                    false
+                }
+            }
+            Tup(v) if structured && v.iter().all(|x| x.int_ty().is_some() && x.int_ty() == v[0].int_ty()) => {
+                let mut tmp = std::vec::Vec::new();
+                for x in v {
+                    x.reads(false, &mut tmp);
+                }
+                let texts = tmp
+                    .into_iter()
+                    .map(|r| match r {
+                        Rd::Int(_, s) => s,
+                        _ => unreachable!(),
+                    })
+                    .collect();
+                out.push(Rd::TupOf(v[0].int_ty().unwrap(), texts));
+                true
+            }
+            Vec(v) | Tup(v) => v.iter().all(|x| x.reads(structured, out)),
             NV8(v) => many!("i8", v),
             NV16(v) => many!("i16", v),
             NV32(v) => many!("i32", v),
@@ -206,6 +251,33 @@ impl Val {
             NUsize(v) => many!("usize", v),
         }
     }
+
+    fn int_ty(&self) -> Option<&'static str> {
+        use Val::*;
+        Some(match self {
+            I8(_) => "i8",
+            I16(_) => "i16",
+            I32(_) => "i32",
+            I64(_) => "i64",
+            I128(_) => "i128",
+            Isize(_) => "isize",
+            U8(_) => "u8",
+            U16(_) => "u16",
+            U32(_) => "u32",
+            U64(_) => "u64",
+            U128(_) => "u128",
+            Usize(_) => "usize",
+            _ => return None,
+        })
+    }
+}
+
+/// one item the reader has to return
+enum Rd {
+    Int(&'static str, String),
+    Str(String),
+    VecOf(&'static str, Vec<String>),
+    TupOf(&'static str, Vec<String>),
 }
 
 fn unhex(s: &str) -> String {
@@ -275,11 +347,47 @@ fn parse_val(t: &[&str], i: &mut usize) -> Val {
             *i += 1;
             Val::StrRef(unhex(t[*i - 1]))
         }
-        "fill" => {
+        "fill" | "rfill" => {
             let c: u8 = p(t[*i]);
             let n: usize = p(t[*i + 1]);
             *i += 2;
-            Val::Str(String::from_utf8(vec![c; n]).unwrap())
+            let s = String::from_utf8(vec![c; n]).unwrap();
+            if k == "fill" {
+                Val::Str(s)
+            } else {
+                Val::StrRef(s)
+            }
+        }
+        "runs" | "rruns" => {
+            let n: usize = p(t[*i]);
+            *i += 1;
+            let mut b = Vec::new();
+            for _ in 0..n {
+                let c: u8 = p(t[*i]);
+                let m: usize = p(t[*i + 1]);
+                *i += 2;
+                b.resize(b.len() + m, c);
+            }
+            let s = String::from_utf8(b).unwrap_or_else(|_| bad("runs: not UTF-8"));
+            if k == "runs" {
+                Val::Str(s)
+            } else {
+                Val::StrRef(s)
+            }
+        }
+        "fillu" | "rfillu" => {
+            let c = char::from_u32(p(t[*i])).unwrap_or_else(|| bad("fillu: code point"));
+            let n: usize = p(t[*i + 1]);
+            let pre: u8 = p(t[*i + 2]);
+            let npre: usize = p(t[*i + 3]);
+            *i += 4;
+            let mut s = String::from_utf8(vec![pre; npre]).unwrap_or_else(|_| bad("fillu: prefix byte"));
+            s.extend(std::iter::repeat(c).take(n));
+            if k == "fillu" {
+                Val::Str(s)
+            } else {
+                Val::StrRef(s)
+            }
         }
         "v" | "t" => {
             let n: usize = p(t[*i]);
@@ -293,6 +401,32 @@ fn parse_val(t: &[&str], i: &mut usize) -> Val {
             } else {
                 Val::Tup(v)
             }
+        }
+        "nvrep" => {
+            let ty = t[*i];
+            let n: usize = p(t[*i + 2]);
+            macro_rules! rep {
+                ($c:ident) => {
+                    Val::$c(vec![p(t[*i + 1]); n])
+                };
+            }
+            let v = match ty {
+                "i8" => rep!(NV8),
+                "i16" => rep!(NV16),
+                "i32" => rep!(NV32),
+                "i64" => rep!(NV64),
+                "i128" => rep!(NV128),
+                "isize" => rep!(NVsize),
+                "u8" => rep!(NU8),
+                "u16" => rep!(NU16),
+                "u32" => rep!(NU32),
+                "u64" => rep!(NU64),
+                "u128" => rep!(NU128),
+                "usize" => rep!(NUsize),
+                _ => bad(ty),
+            };
+            *i += 3;
+            v
         }
         "nv" => {
             let ty = t[*i];
@@ -329,6 +463,7 @@ enum Op {
     Flush,
     Out(Vec<Val>),
     Outln(Vec<Val>),
+    Mv,
 }
 
 /// A sink with a scripted acceptance pattern.
@@ -356,21 +491,29 @@ impl Write for Sink {
     }
 }
 
-fn run_ops(ops: &[Op], sink: Sink, data: &Rc<RefCell<Vec<u8>>>) -> Vec<usize> {
-    let mut flushes = Vec::new();
-    let reader = ();
-    // ManuallyDrop: if an operation panics the unwinding must not run Drop (a second panic would abort)
-    let writer = ManuallyDrop::new(Writer::new(Box::new(sink)));
-    rlib_io::make_output_macro!(reader, writer);
-    let _ = reader;
-    for op in ops {
-        match op {
-            Op::Write(v) => writer.write(v),
-            Op::Char(c) => writer.write_char(*c),
+/// The writer changes its address: onto the heap, through a call, back.  (A writer that keeps a pointer into its own
+/// buffer, or whose buffer lives outside the struct, does not survive this or shares state with its neighbour.)
+#[inline(never)]
+fn relocate<'a>(w: Writer<'a>) -> Writer<'a> {
+    let b = Box::new(w);
+    let pad = vec![0x5au8; 1 << 17];
+    std::hint::black_box(&pad);
+    let b = std::hint::black_box(b);
+    *b
+}
+
+/// One operation through the public API.  `out!` / `outln!` are the macros `make_output_macro!` (or `make_io!`)
+/// defined at the place of use for `$writer`; `$on_flush` runs after an explicit flush, `$mv` moves the writer.
+macro_rules! exec_op {
+    ($op:expr, $writer:ident, $on_flush:block, $mv:block) => {
+        match $op {
+            Op::Write(v) => $writer.write(v),
+            Op::Char(c) => $writer.write_char(*c),
             Op::Flush => {
-                writer.flush();
-                flushes.push(data.borrow().len());
+                $writer.flush();
+                $on_flush
             }
+            Op::Mv => $mv,
             Op::Out(v) => match v.len() {
                 1 => {
                     out!(v[0]);
@@ -411,36 +554,191 @@ fn run_ops(ops: &[Op], sink: Sink, data: &Rc<RefCell<Vec<u8>>>) -> Vec<usize> {
                 n => bad(&format!("outln arity {}", n)),
             },
         }
+    };
+}
+
+/// debug builds: `write` / `write_char` end with a flush, so after any operation a further flush delivers nothing
+macro_rules! debug_flush_check {
+    ($op:expr, $idx:expr, $writer:ident, $data:expr, $fail:expr) => {
+        #[cfg(debug_assertions)]
+        {
+            if !matches!($op, Op::Flush | Op::Mv) {
+                let before = $data.borrow().len();
+                $writer.flush();
+                if $data.borrow().len() != before && $fail.is_none() {
+                    *$fail = Some($idx);
+                }
+            }
+        }
+        #[cfg(not(debug_assertions))]
+        {
+            let _ = ($idx, &$fail);
+        }
+    };
+}
+
+fn run_ops(ops: &[Op], sink: Sink, data: &Rc<RefCell<Vec<u8>>>, dbg_fail: &mut Option<usize>) -> Vec<usize> {
+    let mut flushes = Vec::new();
+    let reader = ();
+    // ManuallyDrop: if an operation panics the unwinding must not run Drop (a second panic would abort)
+    let writer = ManuallyDrop::new(Writer::new(Box::new(sink)));
+    rlib_io::make_output_macro!(reader, writer);
+    let _ = reader;
+    for (idx, op) in ops.iter().enumerate() {
+        exec_op!(op, writer, { flushes.push(data.borrow().len()) }, {
+            writer = ManuallyDrop::new(relocate(ManuallyDrop::into_inner(writer)));
+        });
+        debug_flush_check!(op, idx, writer, data, dbg_fail);
     }
     // the end of the writer's life: impl Drop
     drop(ManuallyDrop::into_inner(writer));
     flushes
 }
 
-fn read_back(bytes: Vec<u8>, expect: &[(&'static str, String)]) -> bool {
+/// one operation on a writer that lives elsewhere (two writers alive at the same time)
+fn apply(
+    op: &Op,
+    idx: usize,
+    slot: &mut ManuallyDrop<Writer<'static>>,
+    data: &Rc<RefCell<Vec<u8>>>,
+    flushes: &mut Vec<usize>,
+    dbg_fail: &mut Option<usize>,
+) {
+    if let Op::Mv = op {
+        // SAFETY: the slot is refilled before anything else can look at it (relocate does not unwind)
+        let w = unsafe { ManuallyDrop::take(slot) };
+        *slot = ManuallyDrop::new(relocate(w));
+        return;
+    }
+    let reader = ();
+    let writer: &mut Writer<'static> = &mut *slot;
+    rlib_io::make_output_macro!(reader, writer);
+    let _ = reader;
+    exec_op!(op, writer, { flushes.push(data.borrow().len()) }, {});
+    debug_flush_check!(op, idx, writer, data, dbg_fail);
+}
+
+/// the `--makeio` child: the script through the real `make_io!`; the writer is dropped by leaving the function
+fn makeio_child(ops: &[Op]) {
+    rlib_io::make_io!(reader, writer);
+    for op in ops {
+        exec_op!(op, writer, {}, {
+            writer = relocate(writer);
+        });
+    }
+}
+
+macro_rules! with_int_ty {
+    ($ty:expr, $m:ident, $($a:tt)*) => {
+        match $ty {
+            "i8" => $m!(i8, $($a)*),
+            "i16" => $m!(i16, $($a)*),
+            "i32" => $m!(i32, $($a)*),
+            "i64" => $m!(i64, $($a)*),
+            "i128" => $m!(i128, $($a)*),
+            "isize" => $m!(isize, $($a)*),
+            "u8" => $m!(u8, $($a)*),
+            "u16" => $m!(u16, $($a)*),
+            "u32" => $m!(u32, $($a)*),
+            "u64" => $m!(u64, $($a)*),
+            "u128" => $m!(u128, $($a)*),
+            _ => $m!(usize, $($a)*),
+        }
+    };
+}
+macro_rules! rd_one {
+    ($t:ty, $r:expr) => {
+        $r.read::<$t>().to_string()
+    };
+}
+macro_rules! rd_vec {
+    ($t:ty, $r:expr, $n:expr) => {
+        $r.read_vec::<$t>($n).iter().map(|x| x.to_string()).collect::<Vec<String>>()
+    };
+}
+macro_rules! rd_tup {
+    ($t:ty, $r:expr, $n:expr) => {
+        match $n {
+            2 => {
+                let x: ($t, $t) = $r.read();
+                vec![x.0.to_string(), x.1.to_string()]
+            }
+            3 => {
+                let x: ($t, $t, $t) = $r.read();
+                vec![x.0.to_string(), x.1.to_string(), x.2.to_string()]
+            }
+            4 => {
+                let x: ($t, $t, $t, $t) = $r.read();
+                vec![x.0.to_string(), x.1.to_string(), x.2.to_string(), x.3.to_string()]
+            }
+            5 => {
+                let x: ($t, $t, $t, $t, $t) = $r.read();
+                vec![x.0.to_string(), x.1.to_string(), x.2.to_string(), x.3.to_string(), x.4.to_string()]
+            }
+            6 => {
+                let x: ($t, $t, $t, $t, $t, $t) = $r.read();
+                vec![x.0.to_string(), x.1.to_string(), x.2.to_string(), x.3.to_string(), x.4.to_string(), x.5.to_string()]
+            }
+            7 => {
+                let x: ($t, $t, $t, $t, $t, $t, $t) = $r.read();
+                vec![
+                    x.0.to_string(),
+                    x.1.to_string(),
+                    x.2.to_string(),
+                    x.3.to_string(),
+                    x.4.to_string(),
+                    x.5.to_string(),
+                    x.6.to_string(),
+                ]
+            }
+            _ => {
+                let x: ($t, $t, $t, $t, $t, $t, $t, $t) = $r.read();
+                vec![
+                    x.0.to_string(),
+                    x.1.to_string(),
+                    x.2.to_string(),
+                    x.3.to_string(),
+                    x.4.to_string(),
+                    x.5.to_string(),
+                    x.6.to_string(),
+                    x.7.to_string(),
+                ]
+            }
+        }
+    };
+}
+
+fn read_back(bytes: Vec<u8>, expect: &[Rd]) -> bool {
     vh::guarded(move || {
         let leaked: &'static [u8] = Box::leak(bytes.into_boxed_slice());
         let mut r = Reader::new(Box::new(leaked));
-        for (ty, s) in expect {
-            let got = match *ty {
-                "i8" => r.read::<i8>().to_string(),
-                "i16" => r.read::<i16>().to_string(),
-                "i32" => r.read::<i32>().to_string(),
-                "i64" => r.read::<i64>().to_string(),
-                "i128" => r.read::<i128>().to_string(),
-                "isize" => r.read::<isize>().to_string(),
-                "u8" => r.read::<u8>().to_string(),
-                "u16" => r.read::<u16>().to_string(),
-                "u32" => r.read::<u32>().to_string(),
-                "u64" => r.read::<u64>().to_string(),
-                "u128" => r.read::<u128>().to_string(),
-                _ => r.read::<usize>().to_string(),
+        for item in expect {
+            let ok = match item {
+                Rd::Int(ty, s) => &with_int_ty!(*ty, rd_one, r) == s,
+                Rd::Str(s) => &r.read::<String>() == s,
+                Rd::VecOf(ty, v) => &with_int_ty!(*ty, rd_vec, r, v.len()) == v,
+                Rd::TupOf(ty, v) => &with_int_ty!(*ty, rd_tup, r, v.len()) == v,
             };
-            if &got != s {
+            if !ok {
                 return false;
             }
         }
         r.is_eof()
+    })
+    .unwrap_or(false)
+}
+
+/// `read_lines` must return the lines of the text (no '\r' in it, ASCII)
+fn read_back_lines(bytes: Vec<u8>, text: &str) -> bool {
+    let mut want: Vec<&str> = text.split('\n').collect();
+    if text.is_empty() || text.ends_with('\n') {
+        want.pop();
+    }
+    let want: Vec<String> = want.into_iter().map(|x| x.to_string()).collect();
+    vh::guarded(move || {
+        let leaked: &'static [u8] = Box::leak(bytes.into_boxed_slice());
+        let mut r = Reader::new(Box::new(leaked));
+        r.read_lines() == want && r.read_line().is_none()
     })
     .unwrap_or(false)
 }
@@ -522,30 +820,244 @@ macro_rules! xsearch {
     }};
 }
 
+/// `count` values of one type written as ONE `Vec<T>` (the usual `outln!(answer)`), then as `Vec<Vec<T>>` (rows of
+/// 1..50 values) and as `Vec<(T, T)>`, one line each: far more elements than any counter narrower than usize holds
+/// and renderings several times the buffer; compared with the joined to_string renderings, read back with read_vec.
+macro_rules! xvec {
+    ($t:ty, $seed:expr, $count:expr, $maxchunk:expr, $intr:expr) => {{
+        let mut rng = Sm($seed);
+        let mut vals: Vec<$t> = Vec::new();
+        let bits = <$t>::BITS as u64;
+        for i in 0..$count {
+            // a long stretch of one-digit values first: the element index outruns the byte offset as far as possible
+            let raw = (rng.next() as u128) | ((rng.next() as u128) << 64);
+            let k = if i < $count / 2 { 1 + rng.next() % 3 } else { 1 + rng.next() % bits };
+            let m = if k >= 128 { raw } else { raw & ((1u128 << k) - 1) };
+            let mut v = m as $t;
+            if i >= $count / 2 && rng.next() % 2 == 0 {
+                v = v.wrapping_neg();
+            }
+            if rng.next() % 64 == 0 {
+                v = if rng.next() % 2 == 0 { <$t>::MIN } else { <$t>::MAX };
+            }
+            vals.push(v);
+        }
+        let mut rows: Vec<Vec<$t>> = Vec::new();
+        let mut at = 0;
+        while at < vals.len() {
+            let n = (1 + (rng.next() as usize) % 50).min(vals.len() - at);
+            rows.push(vals[at..at + n].to_vec());
+            at += n;
+        }
+        let pairs: Vec<($t, $t)> = vals.chunks(2).map(|c| (c[0], c[c.len() - 1])).collect();
+        let data = Rc::new(RefCell::new(Vec::new()));
+        let sink = Sink { data: data.clone(), rng: Sm($seed ^ 0x5151), maxchunk: $maxchunk, intr: $intr };
+        let mut expect = String::new();
+        {
+            let mut w = ManuallyDrop::new(Writer::new(Box::new(sink)));
+            w.write(&vals);
+            w.write_char('\n');
+            expect.push_str(&join(&vals));
+            expect.push('\n');
+            w.flush();
+            if data.borrow().len() != expect.len() {
+                return format!("X bad after-flush-1-sink-has-{}-expected-{}", data.borrow().len(), expect.len());
+            }
+            w.write(&rows);
+            w.write_char('\n');
+            expect.push_str(&rows.iter().map(|r| join(r)).collect::<Vec<_>>().join(" "));
+            expect.push('\n');
+            w.write(&pairs);
+            w.write_char('\n');
+            expect.push_str(&pairs.iter().map(|q| format!("{} {}", q.0, q.1)).collect::<Vec<_>>().join(" "));
+            expect.push('\n');
+            drop(ManuallyDrop::into_inner(w));
+        }
+        let got = data.borrow().clone();
+        if got != expect.as_bytes() {
+            let pos = got.iter().zip(expect.as_bytes()).position(|(a, b)| a != b).unwrap_or(got.len().min(expect.len()));
+            return format!("X bad first-difference-at-byte-{}-sink-{}-expected-{}", pos, got.len(), expect.len());
+        }
+        let n = got.len();
+        let back = vh::guarded(move || {
+            let leaked: &'static [u8] = Box::leak(got.into_boxed_slice());
+            let mut r = Reader::new(Box::new(leaked));
+            if r.read_vec::<$t>(vals.len()) != vals {
+                return Err(1);
+            }
+            for row in &rows {
+                if &r.read_vec::<$t>(row.len()) != row {
+                    return Err(2);
+                }
+            }
+            if r.read_vec::<($t, $t)>(pairs.len()) != pairs {
+                return Err(3);
+            }
+            if !r.is_eof() {
+                return Err(4);
+            }
+            Ok(3 * vals.len())
+        });
+        match back {
+            Some(Ok(k)) => format!("X ok {} {}", k, n),
+            Some(Err(i)) => format!("X bad read-back-differs-in-part-{}", i),
+            None => "X bad reader-panicked".to_string(),
+        }
+    }};
+}
+
 fn xrun(t: &[&str]) -> String {
     let all = t[2] == "all";
     let seed: u64 = p(t[3]);
     let count: usize = p(t[4]);
     let maxchunk: usize = p::<usize>(t[5]).max(1);
     let intr: u64 = p(t[6]);
+    if t[2] == "vec" {
+        return match t[1] {
+            "i8" => (|| xvec!(i8, seed, count, maxchunk, intr))(),
+            "i16" => (|| xvec!(i16, seed, count, maxchunk, intr))(),
+            "i32" => (|| xvec!(i32, seed, count, maxchunk, intr))(),
+            "i64" => (|| xvec!(i64, seed, count, maxchunk, intr))(),
+            "i128" => (|| xvec!(i128, seed, count, maxchunk, intr))(),
+            "isize" => (|| xvec!(isize, seed, count, maxchunk, intr))(),
+            "u8" => (|| xvec!(u8, seed, count, maxchunk, intr))(),
+            "u16" => (|| xvec!(u16, seed, count, maxchunk, intr))(),
+            "u32" => (|| xvec!(u32, seed, count, maxchunk, intr))(),
+            "u64" => (|| xvec!(u64, seed, count, maxchunk, intr))(),
+            "u128" => (|| xvec!(u128, seed, count, maxchunk, intr))(),
+            "usize" => (|| xvec!(usize, seed, count, maxchunk, intr))(),
+            k => bad(k),
+        };
+    }
     match t[1] {
-        "i8" => xsearch!(i8, all, seed, count, maxchunk, intr),
-        "i16" => xsearch!(i16, all, seed, count, maxchunk, intr),
-        "i32" => xsearch!(i32, all, seed, count, maxchunk, intr),
-        "i64" => xsearch!(i64, all, seed, count, maxchunk, intr),
-        "i128" => xsearch!(i128, all, seed, count, maxchunk, intr),
-        "isize" => xsearch!(isize, all, seed, count, maxchunk, intr),
-        "u8" => xsearch!(u8, all, seed, count, maxchunk, intr),
-        "u16" => xsearch!(u16, all, seed, count, maxchunk, intr),
-        "u32" => xsearch!(u32, all, seed, count, maxchunk, intr),
-        "u64" => xsearch!(u64, all, seed, count, maxchunk, intr),
-        "u128" => xsearch!(u128, all, seed, count, maxchunk, intr),
-        "usize" => xsearch!(usize, all, seed, count, maxchunk, intr),
+        "i8" => (|| xsearch!(i8, all, seed, count, maxchunk, intr))(),
+        "i16" => (|| xsearch!(i16, all, seed, count, maxchunk, intr))(),
+        "i32" => (|| xsearch!(i32, all, seed, count, maxchunk, intr))(),
+        "i64" => (|| xsearch!(i64, all, seed, count, maxchunk, intr))(),
+        "i128" => (|| xsearch!(i128, all, seed, count, maxchunk, intr))(),
+        "isize" => (|| xsearch!(isize, all, seed, count, maxchunk, intr))(),
+        "u8" => (|| xsearch!(u8, all, seed, count, maxchunk, intr))(),
+        "u16" => (|| xsearch!(u16, all, seed, count, maxchunk, intr))(),
+        "u32" => (|| xsearch!(u32, all, seed, count, maxchunk, intr))(),
+        "u64" => (|| xsearch!(u64, all, seed, count, maxchunk, intr))(),
+        "u128" => (|| xsearch!(u128, all, seed, count, maxchunk, intr))(),
+        "usize" => (|| xsearch!(usize, all, seed, count, maxchunk, intr))(),
         k => bad(k),
     }
 }
 
+fn parse_ops(t: &[&str], i: &mut usize, tagged: bool) -> (Vec<Op>, Vec<usize>) {
+    let mut ops = Vec::new();
+    let mut tags = Vec::new();
+    while *i < t.len() {
+        if tagged {
+            tags.push(p(t[*i]));
+            *i += 1;
+        }
+        let k = t[*i];
+        *i += 1;
+        match k {
+            "w" => ops.push(Op::Write(parse_val(t, i))),
+            "c" => {
+                let c: u32 = p(t[*i]);
+                *i += 1;
+                ops.push(Op::Char(char::from_u32(c).unwrap()));
+            }
+            "f" => ops.push(Op::Flush),
+            "mv" => ops.push(Op::Mv),
+            "o" | "ol" => {
+                let n: usize = p(t[*i]);
+                *i += 1;
+                let mut v = Vec::new();
+                for _ in 0..n {
+                    v.push(parse_val(t, i));
+                }
+                ops.push(if k == "o" { Op::Out(v) } else { Op::Outln(v) });
+            }
+            _ => bad(k),
+        }
+    }
+    (ops, tags)
+}
+
+/// oracle on the Rust side: concatenation of the standard renderings, and what a reader has to find
+struct Oracle {
+    text: String,
+    expect: Vec<Rd>,
+    readable: bool,
+}
+
+fn oracle_of<'a>(ops: impl Iterator<Item = &'a Op>, rt: u32) -> Oracle {
+    let mut text = String::new();
+    let mut expect = Vec::new();
+    let mut readable = rt == 1 || rt == 3;
+    let structured = rt == 3;
+    for op in ops {
+        match op {
+            Op::Write(v) => {
+                text.push_str(&v.render());
+                readable = readable && v.reads(structured, &mut expect);
+            }
+            Op::Char(c) => {
+                text.push(*c);
+                // a separator; anything else would glue to the neighbouring tokens
+                readable = readable && c.is_ascii_whitespace();
+            }
+            Op::Flush | Op::Mv => {}
+            Op::Out(v) | Op::Outln(v) => {
+                text.push_str(&v.iter().map(|x| x.render()).collect::<Vec<_>>().join(" "));
+                for x in v {
+                    readable = readable && x.reads(structured, &mut expect);
+                }
+                if let Op::Outln(_) = op {
+                    text.push('\n');
+                }
+            }
+        }
+    }
+    Oracle { text, expect, readable }
+}
+
+fn answer(got: Vec<u8>, flushes: &[usize], or: &Oracle, rt: u32, fail: Option<String>) -> String {
+    let mut s = format!("R {} {}", hex(&got), flushes.len());
+    for f in flushes {
+        s.push_str(&format!(" {}", f));
+    }
+    if let Some(why) = fail {
+        s.push_str(&format!(" F!{}", why));
+    } else if got == or.text.as_bytes() {
+        s.push_str(" T");
+    } else {
+        s.push_str(&format!(" F{}", hex(or.text.as_bytes())));
+    }
+    let verdict = if rt == 2 {
+        if or.text.is_ascii() && !or.text.contains('\r') {
+            Some(read_back_lines(got, &or.text))
+        } else {
+            None
+        }
+    } else if or.readable {
+        Some(read_back(got, &or.expect))
+    } else {
+        None
+    };
+    s.push_str(match verdict {
+        None => " N",
+        Some(true) => " T",
+        Some(false) => " F",
+    });
+    s
+}
+
 fn main() {
+    let args: Vec<String> = std::env::args().collect();
+    if args.len() >= 2 && args[1] == "--makeio" {
+        let t: Vec<&str> = args[2..].iter().map(|x| x.as_str()).collect();
+        let mut i = 0;
+        let (ops, _) = parse_ops(&t, &mut i, false);
+        makeio_child(&ops);
+        return;
+    }
     vh::serve(|t| {
         if t[0] == "Q" {
             return format!("B {}", Writer::VERIF_BUF_SIZE);
@@ -553,78 +1065,78 @@ fn main() {
         if t[0] == "X" {
             return xrun(t);
         }
+        if t[0] == "M" {
+            let rt: u32 = p(t[1]);
+            let mut i = 2;
+            let (ops, _) = parse_ops(t, &mut i, false);
+            let or = oracle_of(ops.iter(), rt);
+            let out = std::process::Command::new(std::env::current_exe().unwrap())
+                .arg("--makeio")
+                .args(&t[2..])
+                .stdin(std::process::Stdio::null())
+                .stderr(std::process::Stdio::null())
+                .output()
+                .unwrap();
+            if !out.status.success() {
+                return "P".to_string();
+            }
+            return answer(out.stdout, &[], &or, rt, None);
+        }
+        let dual = t[0] == "D";
         let maxchunk: usize = p(t[1]);
         let intr: u64 = p(t[2]);
         let seed: u64 = p(t[3]);
-        let rt = t[4] == "1";
-        let mut ops = Vec::new();
-        let mut i = 5;
-        while i < t.len() {
-            let k = t[i];
-            i += 1;
-            match k {
-                "w" => ops.push(Op::Write(parse_val(t, &mut i))),
-                "c" => {
-                    let c: u32 = p(t[i]);
-                    i += 1;
-                    ops.push(Op::Char(char::from_u32(c).unwrap()));
-                }
-                "f" => ops.push(Op::Flush),
-                "o" | "ol" => {
-                    let n: usize = p(t[i]);
-                    i += 1;
-                    let mut v = Vec::new();
-                    for _ in 0..n {
-                        v.push(parse_val(t, &mut i));
-                    }
-                    ops.push(if k == "o" { Op::Out(v) } else { Op::Outln(v) });
-                }
-                _ => bad(k),
-            }
+        let rt: u32 = p(t[4]);
+        if !dual {
+            let mut i = 5;
+            let (ops, _) = parse_ops(t, &mut i, false);
+            let or = oracle_of(ops.iter(), rt);
+            let data = Rc::new(RefCell::new(Vec::new()));
+            let sink = Sink { data: data.clone(), rng: Sm(seed), maxchunk: maxchunk.max(1), intr };
+            let mut dbg_fail = None;
+            let flushes = run_ops(&ops, sink, &data, &mut dbg_fail);
+            let got = data.borrow().clone();
+            return answer(got, &flushes, &or, rt, dbg_fail.map(|i| format!("dbgflush{}", i)));
         }
-        // oracle on the Rust side: concatenation of the standard renderings
-        let mut oracle = String::new();
-        let mut expect = Vec::new();
-        let mut readable = rt;
-        for op in &ops {
-            match op {
-                Op::Write(v) => {
-                    oracle.push_str(&v.render());
-                    readable &= v.ints(&mut expect);
-                }
-                Op::Char(c) => oracle.push(*c),
-                Op::Flush => {}
-                Op::Out(v) | Op::Outln(v) => {
-                    oracle.push_str(&v.iter().map(|x| x.render()).collect::<Vec<_>>().join(" "));
-                    for x in v {
-                        readable &= x.ints(&mut expect);
-                    }
-                    if let Op::Outln(_) = op {
-                        oracle.push('\n');
-                    }
-                }
-            }
+        // two writers alive at the same time
+        let which: usize = p(t[5]);
+        let dropfirst: usize = p(t[6]);
+        let mut i = 7;
+        let (ops, tags) = parse_ops(t, &mut i, true);
+        let ors = [
+            oracle_of(ops.iter().zip(&tags).filter(|x| *x.1 == 0).map(|x| x.0), rt),
+            oracle_of(ops.iter().zip(&tags).filter(|x| *x.1 == 1).map(|x| x.0), rt),
+        ];
+        let datas = [Rc::new(RefCell::new(Vec::new())), Rc::new(RefCell::new(Vec::new()))];
+        let mut flushes = [Vec::new(), Vec::new()];
+        let mut fails = [None, None];
+        let mut ws = [
+            ManuallyDrop::new(Writer::new(Box::new(Sink { data: datas[0].clone(), rng: Sm(seed), maxchunk: maxchunk.max(1), intr }))),
+            ManuallyDrop::new(Writer::new(Box::new(Sink {
+                data: datas[1].clone(),
+                rng: Sm(seed ^ 0xabcdef),
+                maxchunk: maxchunk.max(1),
+                intr,
+            }))),
+        ];
+        for (idx, (op, &w)) in ops.iter().zip(&tags).enumerate() {
+            apply(op, idx, &mut ws[w], &datas[w], &mut flushes[w], &mut fails[w]);
         }
-        let data = Rc::new(RefCell::new(Vec::new()));
-        let sink = Sink { data: data.clone(), rng: Sm(seed), maxchunk: maxchunk.max(1), intr };
-        let flushes = run_ops(&ops, sink, &data);
-        let got = data.borrow().clone();
-        let mut s = format!("R {} {}", hex(&got), flushes.len());
-        for f in &flushes {
-            s.push_str(&format!(" {}", f));
+        for k in [dropfirst & 1, 1 - (dropfirst & 1)] {
+            // SAFETY: each slot is taken exactly once, nothing uses it afterwards
+            drop(unsafe { ManuallyDrop::take(&mut ws[k]) });
         }
-        if got == oracle.as_bytes() {
-            s.push_str(" T");
+        let other = 1 - which;
+        let fail = if let Some(i) = fails[which] {
+            Some(format!("dbgflush{}", i))
+        } else if let Some(i) = fails[other] {
+            Some(format!("other-dbgflush{}", i))
+        } else if datas[other].borrow().as_slice() != ors[other].text.as_bytes() {
+            Some("other".to_string())
         } else {
-            s.push_str(&format!(" F{}", hex(oracle.as_bytes())));
-        }
-        s.push_str(if !readable {
-            " N"
-        } else if read_back(got, &expect) {
-            " T"
-        } else {
-            " F"
-        });
-        s
+            None
+        };
+        let got = datas[which].borrow().clone();
+        answer(got, &flushes[which], &ors[which], rt, fail)
     });
 }
